@@ -101,6 +101,7 @@ func run(c *vf.Ctx) {
 	c.Floor("states", c.Counter("states"), c.N(130, 1800))
 	c.Floor("operations that completed without error", c.Counter("operations_completed"), c.N(90, 1200))
 	c.Floor("states with staged-only objects", c.Counter("states_with_staged_only"), c.N(40, 500))
+	c.Floor("shallow states", c.Counter("states_shallow"), c.N(15, 250))
 	c.Floor("states with detached HEAD", c.Counter("states_detached"), c.N(15, 200))
 	c.Floor("objects whose survival was verified", c.Counter("objects_verified"), c.N(4000, 60000))
 	c.Floor("garbage objects actually pruned (the operation did something)", c.Counter("garbage_pruned"), c.N(30, 300))
@@ -133,6 +134,34 @@ func oneState(c *vf.Ctx, g *gitx.Git, r *rand.Rand, idx int, op string) {
 		branches = append(branches, b)
 	}
 	g.Run(dir, "checkout", "-q", "-f", branches[0])
+	// one state in four is a shallow clone (depth 1-3) of the generated history, half of them with all objects loose
+	if r.Intn(4) == 0 {
+		depth := 1 + r.Intn(3)
+		sh := dir + "-shallow"
+		if res := g.Run(filepath.Dir(dir), "clone", "-q", "--no-local", fmt.Sprintf("--depth=%d", depth), "file://"+dir, sh); res.OK() {
+			defer os.RemoveAll(sh)
+			dir = sh
+			g.Run(dir, "config", "core.logAllRefUpdates", "false")
+			feats = append(feats, fmt.Sprintf("shallow-depth-%d", depth))
+			if r.Intn(2) == 0 {
+				packs, _ := filepath.Glob(filepath.Join(dir, ".git/objects/pack/*.pack"))
+				for _, pk := range packs {
+					tmp := pk + ".moved"
+					os.Rename(pk, tmp)
+					b, _ := os.ReadFile(tmp)
+					g.RunIn(dir, b, "unpack-objects", "-q")
+					os.Remove(tmp)
+					os.Remove(strings.TrimSuffix(pk, ".pack") + ".idx")
+					os.Remove(strings.TrimSuffix(pk, ".pack") + ".rev")
+				}
+				feats = append(feats, "all-loose")
+			}
+			// ids of the full history may be absent here: tag only what exists
+			out, _ := g.MustOut(dir, "rev-list", "HEAD")
+			ids = strings.Fields(out)
+			c.Count("states_shallow", 1)
+		}
+	}
 	// packs
 	npacks := r.Intn(4)
 	if npacks > 0 {
